@@ -26,7 +26,14 @@ OnEOF(s, e, i) ==
                                nbase |-> Len(Q(s.base, CHOOSE p \in bad : TRUE)), ngot |-> Len(Q(s.cur, CHOOSE p \in bad : TRUE))])
        \* variants "dupadj" / "dupsep": the PID's own sequence now holds an exact copy of its last packet - right behind the original in the
        \* first multiplex, behind a null packet in the second; the PID's output is the same in both (whatever the copy does to it)
-       IN IF s.v.t = "dupadj" THEN [s1 EXCEPT !.dupref = Q(s.cur, s.v.cpid)]
+       \* variants "resumeadj" / "resumesep": the input ends between two packets of the PID, more input arrives and the caller goes on; the
+       \* PID's next packet comes first or behind a null packet (only this pair of runs is compared: units cut by the first end differ from the base)
+       IN IF s.v.t = "resumeadj" THEN [s0 EXCEPT !.dupref = Q(s.cur, s.v.cpid)]
+          ELSE IF s.v.t = "resumesep" THEN
+            RepIf(Q(s.cur, s.v.cpid) # s.dupref, s0, [prop |-> "C07", kind |-> "pid-output-depends-on-multiplex", trace |-> s.tr, at |-> i, run |-> s.v.r,
+                               variant |-> s.v.t, mode |-> s.v.mode, k |-> s.v.k, pids |-> {s.v.cpid},
+                               nbase |-> Len(s.dupref), ngot |-> Len(Q(s.cur, s.v.cpid))])
+          ELSE IF s.v.t = "dupadj" THEN [s1 EXCEPT !.dupref = Q(s.cur, s.v.cpid)]
           ELSE IF s.v.t = "dupsep" THEN
             RepIf(Q(s.cur, s.v.cpid) # s.dupref, s1, [prop |-> "C07", kind |-> "pid-output-depends-on-multiplex", trace |-> s.tr, at |-> i, run |-> s.v.r,
                                variant |-> s.v.t, mode |-> s.v.mode, k |-> s.v.k, pids |-> {s.v.cpid},
